@@ -44,11 +44,43 @@ def near_miss(rng, v):
     return v + b"\x01"
 
 
+def near_pair(rng):
+    """two different byte strings that a length cap or a pre-hashing step would confuse:
+    (long L, digest of L) and (P || x, P || y) with a long common prefix P"""
+    import hashlib
+    c = rng.randrange(3)
+    if c == 0:
+        L = gen.gen_bytes(rng, "huge")
+        d = rng.choice([hashlib.sha256(L).digest(), hashlib.sha256(L).hexdigest().encode(),
+                        hashlib.sha1(L).digest(), hashlib.md5(L).digest(), hashlib.sha512(L).digest()])
+        return L, d
+    n = rng.choice([1024, 2048, 4096, 4096, 8192, 16384, 65536])
+    P = bytes(rng.randrange(256) for _ in range(64)) * (n // 64)
+    if c == 1:
+        return P + b"x", P + b"y"
+    return P, P + bytes(rng.randrange(256) for _ in range(rng.choice([1, 7, 100])))
+
+
 def _differ(rng, cfg, kinds):
     """apply 1..3 configuration differences to node 1; returns the list applied"""
     a, b = cfg["nodes"][0], cfg["nodes"][1]
     done = []
     for kind in kinds:
+        if kind == "pw" and rng.random() < 0.12:
+            x, y = near_pair(rng)
+            for nd in cfg["nodes"][:2]:
+                nd["pw"] = x.hex()
+            b["pw"] = y.hex()
+            done.append("pw-pair")
+            continue
+        if kind == "ids" and rng.random() < 0.12:
+            x, y = near_pair(rng)
+            key = "idS" if a["cls"] == "S" else rng.choice(["idA", "idB"])
+            for nd in cfg["nodes"][:2]:
+                nd[key] = x.hex()
+            b[key] = y.hex()
+            done.append(key + "-pair")
+            continue
         if kind == "pw":
             if rng.random() < 0.3:
                 v = near_miss(rng, bytes.fromhex(a["pw"])).hex()
